@@ -54,9 +54,24 @@ class C20(Prop):
                 items = [[q + 1, p[q]] for q in range(n) if p[q] != 0]
                 rng.shuffle(items)
                 yield {"k": "parsedict", "n": n, "items": items}
+        # registers across the 64-bit word boundary
+        for n in (63, 64, 65, 70, 130):
+            for t in range(4):
+                p = [rng.randrange(4) if (t % 2 == 0 or rng.random() < 0.1) else 0 for _ in range(n)] + [rng.randrange(4)]
+                p[n - 1] = p[n - 1] or 2
+                pre = {0: [[], [4]][t % 2], 1: [[8], [4, 8]][t % 2], 2: [5], 3: [5, 8]}[p[-1]]
+                yield {"k": "parse", "fmt": "str", "tokens": pre + p[:-1]}
+                yield {"k": "parse", "fmt": "array", "tokens": p[:-1] + [{0: 4, 1: 6, 2: 5, 3: 7}[p[-1]]]}
+                yield {"k": "repr", "p": p}
+                yield {"k": "tokenize", "p": p}
+                yield {"k": "weight", "p": p}
+                if p[-1] == 0:
+                    items = [[q + 1, p[q]] for q in range(n) if p[q] != 0]
+                    rng.shuffle(items)
+                    yield {"k": "parsedict", "n": n, "items": items}
         # lists
         for t in range(300 if self.tier == "thorough" else 80):
-            n = rng.choice((1, 2, 3, 4, 6, 9))
+            n = rng.choice((1, 2, 3, 4, 6, 9, 65))
             L = rng.randrange(1, 7)
             descs = []
             for _ in range(L):
